@@ -413,6 +413,24 @@ def truncated_columns(sp, T, A, Minv, r0q, tq, usable, m, rows_allowed, lam_p):
             floor = max(1e-3 * float(hi[b]), 1e-4)   # far above anything that could be called a breakdown
             if min(be[:m]) < floor:
                 continue
+            # ... and the column is above the accuracy floor of the beta safe division (line 39: r^T z < eps gives beta = 0,
+            # hence an off-diagonal that is exactly 0 - a threshold event of this very column, which the property allows):
+            # r_k^T z_k = r_0^T z_0 (beta_k e_k^T T_k^-1 e_1)^2 from the oracle's Lanczos coefficients, k = 1..m
+            eps = sp.get("eps") if sp.get("eps") is not None else 1e-10
+            rz0 = float(z @ z)
+            above = rz0 >= 100 * eps
+            for k in range(1, m + 1):
+                Tk = torch.diag(torch.tensor(al[:k], dtype=F64))
+                for i in range(k - 1):
+                    Tk[i, i + 1] = Tk[i + 1, i] = be[i]
+                ek1 = torch.zeros(k, dtype=F64)
+                ek1[0] = 1.0
+                y = torch.linalg.solve(Tk, ek1)
+                if rz0 * (be[k - 1] * float(y[-1])) ** 2 < 100 * eps:
+                    above = False
+                    break
+            if not above:
+                continue
             # the quadrature this truncation spoils: e1^T T^(2m) e1 vs z^T Ahat^(2m) z
             zz = z / z.norm()
             e1 = torch.zeros(m, dtype=F64)
